@@ -298,14 +298,13 @@ def run(ctx):
         ctx.violation('spec:' + ','.join(res.violated), 'TLC: type soundness fails on the transcription', {'behaviour': res.behaviour[:3000]}, 'MC')
     ctx.leg('S2C', expressions=rp.n_expr, cells=rp.n_cells)
     # ill-typed spines: whatever the compiler decides, an ACCEPTED statement must not die with a type error
-    nill = [0, 0]
+    nill = [0, 0, 0]
+    ill_events = []
 
     def ill(m):
         if 'table' in m:
             return
         nill[0] += 1
-        if nill[0] % ctx.pick(4, 1):
-            return
         try:
             stmt = selectq.bql.select_ast([(selectq.bql.expr_ast(m['e']), 'c0')], 't')
         except selectq.bql.OutOfDomain:
@@ -313,14 +312,19 @@ def run(ctx):
         status, desc, rows = selectq.run_query(rp.conn, stmt)
         nill[1] += 1
         ctx.traces += 1
+        if status == 'ok':
+            # the compiler's typing is more liberal than the model's here: whatever it announces must still be true
+            nill[2] += 1
+            run_event(rp.conn, stmt, 'accepted:' + selectq.bql.expr_key(m['e']), ill_events, ctx, fmt=False)
         if status == 'error' and type(desc).__name__ in ('TypeError', 'AttributeError'):
             ctx.violation('illtyped:' + selectq.bql.expr_key(m['e']).split('(')[0] + ':' + type(desc).__name__,
                           'a statement the type checker accepted fails with a type error: %s' % desc,
                           {'e': m['e']}, 'S2C', 'CompilationError or a type-safe run', repr(desc))
     ctx.tlc('Gen_Expr', 'Gen_ExprIll1.cfg', leg='GEN', on_json=ill)
-    ctx.leg('S2C', illtyped_spines_run=nill[1])
+    ctx.leg('S2C', illtyped_spines_run=nill[1], accepted_by_the_compiler=nill[2])
     # ---- C2S registry-driven
     events, uncovered = registry_leg(ctx)
+    events = events + ill_events
     for i, ev in enumerate(events, 1):
         ev['id'] = i
     path = ctx.path('types.ndjson')
